@@ -5,7 +5,7 @@ CONSTANTS
   MaxRxns = 2
   GridSeq <- G_Three
   StateModes <- M_Pat
-  Patterns <- P_Few
+  Patterns <- P_One
   Extents <- X_Zero
   Deltas <- D_Few
   Factors <- F_Few
